@@ -168,7 +168,7 @@ int __wrap_pthread_mutex_unlock(pthread_mutex_t *m)
 /* ------------------------------------------------------------------ allocation tracking */
 #define TBL (1 << 16)
 static vrt_block_t tbl[TBL]; static pthread_mutex_t mlock = PTHREAD_MUTEX_INITIALIZER;
-static int TRACK = 0; static long REQ = 0, FAIL_FROM = 0, NLIVE = 0, FOREIGN = 0, NEXTID = 0;
+static int TRACK = 0, SCOPE = 0; static long REQ = 0, FAIL_FROM = 0, NLIVE = 0, FOREIGN = 0, NEXTID = 0;
 static size_t LIVEB = 0;
 #define MAXSITE 4096
 static const char *site_file[MAXSITE]; static int site_line[MAXSITE];
@@ -193,6 +193,8 @@ static int t_del(void *p)
 }
 void vrt_mem_track(int on) { pthread_mutex_lock(&mlock); TRACK = on; if (on) REQ = 0; pthread_mutex_unlock(&mlock); }
 long vrt_mem_requests(void) { return REQ; }
+/* requests are counted and made to fail only while the harness is inside a library call */
+void vrt_mem_scope(int on) { SCOPE = on; }
 void vrt_mem_arm(long k) { pthread_mutex_lock(&mlock); FAIL_FROM = k; REQ = 0; pthread_mutex_unlock(&mlock); }
 long vrt_mem_live_count(void) { return NLIVE; }
 size_t vrt_mem_live_bytes(void) { return LIVEB; }
@@ -218,7 +220,7 @@ static void *alloc_common(size_t size, int zero)
     void *p = 0; int fail = 0; const char *file = cur_file; int line = cur_line;
     cur_file = 0; cur_line = 0;
     pthread_mutex_lock(&mlock);
-    if (TRACK || FAIL_FROM) {
+    if ((TRACK || FAIL_FROM) && SCOPE) {
 	++REQ;
 	if (REQ <= MAXSITE) { site_file[REQ - 1] = file; site_line[REQ - 1] = line; }
 	if (FAIL_FROM && REQ >= FAIL_FROM) fail = 1;
